@@ -33,6 +33,7 @@ type Exec struct {
 	freshSeq   int
 	scenario   string
 	overflow   bool
+	curGen     *shapeGen
 }
 
 type FuncStats struct {
